@@ -121,6 +121,14 @@ func (a *adversary) share(id primitives.MemberId, height primitives.BlockHeight,
 	switch {
 	case mode == "forged":
 		return a.forge()
+	case mode == "other": // the valid share of the next identity, computed with its key (lone-node tables: every key is held)
+		for i, x := range a.cl.ids {
+			if x.Equal(id) {
+				o := a.cl.ids[(i+1)%a.cl.nMembers]
+				return a.cl.ring.share(o, uint64(height), a.seedBytes(uint64(height)))
+			}
+		}
+		return a.forge()
 	case mode == "stolen": // the (valid) share some OTHER member put into its own COMMIT at this height, replayed under this sender's name
 		var keys []string
 		for k := range a.shares {
@@ -231,6 +239,7 @@ func genuineVote(m *interfaces.ViewChangeMessage) *protocol.ViewChangeMessageCon
 }
 
 type nvD struct {
+	ht     protocol.MessageType // 0: LEAN_HELIX_NEW_VIEW
 	inst   primitives.InstanceId
 	h, v   uint64
 	sender primitives.MemberId
@@ -242,7 +251,11 @@ type nvD struct {
 }
 
 func (a *adversary) mkNV(d nvD, block interfaces.Block) *interfaces.ConsensusRawMessage {
-	hd := &protocol.NewViewHeaderBuilder{MessageType: protocol.LEAN_HELIX_NEW_VIEW, InstanceId: d.inst, BlockHeight: primitives.BlockHeight(d.h), View: primitives.View(d.v),
+	ht := protocol.LEAN_HELIX_NEW_VIEW
+	if d.ht != 0 {
+		ht = d.ht
+	}
+	hd := &protocol.NewViewHeaderBuilder{MessageType: ht, InstanceId: d.inst, BlockHeight: primitives.BlockHeight(d.h), View: primitives.View(d.v),
 		ViewChangeConfirmations: d.votes}
 	ppb := d.pp.builder()
 	nc := &protocol.NewViewMessageContentBuilder{SignedHeader: hd, Sender: a.sig(d.sender, primitives.BlockHeight(d.h), hd.Build().Raw(), d.mode),
@@ -277,6 +290,13 @@ func (a *adversary) mkPaddedP(r refD, signer primitives.MemberId) *interfaces.Co
 	hdr, snd := a.paddedSigned(signer, r.h, r.builder().Build().Raw(), 4)
 	raw := append(rawField(hdr), rawField(snd)...)
 	return wrap(&protocol.LeanhelixContentBuilder{Message: protocol.LEANHELIX_CONTENT_MESSAGE_PREPARE_MESSAGE, PrepareMessage: protocol.PrepareContentBuilderFromRaw(raw)}, nil)
+}
+
+// mkPaddedPP: a PREPREPARE whose signed header carries trailing bytes (signed as sent); the block is attached as usual
+func (a *adversary) mkPaddedPP(r refD, signer primitives.MemberId, block interfaces.Block) *interfaces.ConsensusRawMessage {
+	hdr, snd := a.paddedSigned(signer, r.h, r.builder().Build().Raw(), 4)
+	raw := append(rawField(hdr), rawField(snd)...)
+	return wrap(&protocol.LeanhelixContentBuilder{Message: protocol.LEANHELIX_CONTENT_MESSAGE_PREPREPARE_MESSAGE, PreprepareMessage: protocol.PreprepareContentBuilderFromRaw(raw)}, block)
 }
 
 func (a *adversary) mkPaddedC(r refD, signer primitives.MemberId) *interfaces.ConsensusRawMessage {
